@@ -1,6 +1,6 @@
 (* C03 -- table bodies are exactly tiled by self-describing entries; counts agree. Statements only. *)
 From Coq Require Import NArith List.
-From ACPI Require Import Lib.Bytes Lib.Sx Lib.Machine Impl.Table Spec.Layout Proofs.TableP Proofs.WalkP Proofs.Tables.
+From ACPI Require Import Lib.Bytes Lib.Sx Lib.Machine Impl.Table Spec.Layout Proofs.TableP Proofs.WalkP Proofs.Tables Proofs.Registry.
 Import ListNotations.
 Open Scope N_scope.
 
